@@ -158,7 +158,12 @@ func main() {
 				hx.Fatal("LoadRules: %v", err)
 			}
 			if got := len(hotspot.GetRules()); got != len(rules) {
-				hx.Fatal("trace %d: %d of %d rules accepted", r.tr, got, len(rules))
+				// a scenario error only if the module's validity predicate refuses a rule (see c02)
+				for _, hr := range rules {
+					if err := hotspot.IsValidRule(hr); err != nil {
+						hx.Fatal("trace %d: %d of %d rules accepted: the scenario holds an invalid rule (%v)", r.tr, got, len(rules), err)
+					}
+				}
 			}
 			tr.Emit(hx.M{"op": "new", "tr": r.tr, "ty": r.tab.Ty, "cf": cf, "idx": hx.Int(s, "idx"), "key": hx.Str(s, "key"), "pcap": pcap})
 		case "req":
